@@ -190,7 +190,7 @@ class Scheduler:
         choices = ["polygon", "polygon", "polygon", "square", "triangle", "regular", "primpoly",
                    "jordan", "singleton"]
         if cfg["curved"]:
-            choices += ["circle", "circle", "quad", "cubic"]
+            choices += ["circle", "circle", "quad", "cubic", "spandrel"]
         if cfg["composite_builds"]:
             choices += ["connected", "disjoint", "inverted"]
         what = r.choice(choices)
@@ -212,6 +212,11 @@ class Scheduler:
         if what == "primpoly":
             verts = gen.polygon(r, numeric, den=self._den())
             return {"op": "build", "what": "polygon", "verts": [_jp(v) for v in verts], "dst": dst}
+        if what == "spandrel":
+            chain = gen.spandrel(r, (float(center[0]), float(center[1])))
+            if kernel.chain_area(chain) < 0:
+                chain = gen.reverse_chain(chain)
+            return {"op": "build", "what": "value", "value": model.jsonable(("S", chain)), "dst": dst}
         if what in ("quad", "cubic"):
             chain = gen.curved_chain(r, numeric, 2 if what == "quad" else 3)
             if chain is None:
@@ -354,7 +359,13 @@ class Scheduler:
             kind = r.choice(["area", "area", "moment", "moment", "jlen", "jlen", "box", "in_point",
                              "in_point", "contains_point", "contains_point", "points", "str",
                              "repr", "plot", "bool"])
+        if k not in ("E", "W") and r.random() < 0.06:
+            kind = r.choice(["seg_derivate", "seg_eval"])
         step = {"op": kind, "a": a}
+        if kind == "seg_derivate":
+            step.update(k=self._jordan_index(world, a), i=r.randrange(64), times=r.choice([1, 1, 2, 3]))
+        if kind == "seg_eval":
+            step.update(k=self._jordan_index(world, a), i=r.randrange(64), t=J(Fraction(r.randint(0, 8), 8)))
         if kind == "moment":
             ea = r.randint(0, 2)
             step["ea"], step["eb"] = ea, r.randint(0, 2 - ea)
@@ -414,6 +425,13 @@ class Scheduler:
                 v = (cb[0] - ca[0] + jitter, cb[1] - ca[1])
             return {"op": "move", "a": a, "v": _jp(v), "form": r.choice(["args", "tuple"])}
         if kind == "scale":
+            # explored space: coordinates stay below 1e5 (the library's tolerances are absolute)
+            extent = max([1.0] + [abs(float(c)) for c in kernel.coords_of(world.slots[a].V)])
+            if extent * (100 if big else 4) > 1e5:
+                big = False
+                if extent * 4 > 1e5:
+                    sx = Fraction(1, r.randint(2, 8)) if numeric != "float" else r.uniform(0.1, 0.5)
+                    return {"op": "scale", "a": a, "sx": J(sx), "sy": J(sx)}
             if numeric == "float":
                 lo, hi = (0.01, 100) if big else (0.25, 4)
                 sx = math.exp(r.uniform(math.log(lo), math.log(hi)))
@@ -555,6 +573,33 @@ class Scheduler:
                 pnodes.append(J(nd))
         return {"op": "split", "a": a, "k": k, "idx": pidx, "nodes": pnodes}
 
+    def memo_probe(self, world):
+        """Buggify the module-level memo tables: with cold tables, ask a segment for a higher
+        derivative (or a point) first, then ask an ordinary query with the tables dropped
+        between the live evaluation and the twins."""
+        r = self.rng
+        names = [n for n in sorted(world.slots) if kernel.kind(world.slots[n].V) not in ("E", "W")]
+        if not names:
+            return None
+        a = r.choice(names)
+        k = self._jordan_index(world, a)
+        first = {"op": "seg_derivate", "a": a, "k": k, "i": r.randrange(64), "times": r.choice([1, 2, 2, 3]),
+                 "t1": True, "t2": False, "repeat": False, "drop": "live"}
+        if r.random() < 0.25:
+            first = {"op": "seg_eval", "a": a, "k": k, "i": r.randrange(64), "t": J(Fraction(r.randint(0, 4), 4)),
+                     "t1": True, "t2": False, "repeat": False, "drop": "live"}
+        follow = None
+        for _ in range(5):
+            follow = self.uquery_step(world, target=a)
+            if follow is not None and follow["op"] in ("area", "jlen", "moment", "in_point", "contains_point", "jarea"):
+                break
+            follow = None
+        if follow is not None:
+            follow["t1"] = follow["t2"] = True
+            follow["drop"] = r.choice(["t1", "t1", "t2"])
+            self.pending.insert(0, follow)
+        return first
+
     def fault_step(self, world):
         r = self.rng
         kinds = [k for k in self.cfg["faults"] if k in ("cache_drop", "alias_arg")]
@@ -562,6 +607,10 @@ class Scheduler:
             return None
         kind = r.choice(kinds)
         if kind == "cache_drop":
+            if r.random() < 0.5:
+                st = self.memo_probe(world)
+                if st is not None:
+                    return st
             return {"op": "cache_drop"}
         sources = [n for n in sorted(world.slots) if kernel.kind(world.slots[n].V) not in ("E", "W")]
         targets = list(sources)  # shapes and stand-alone curves
